@@ -41,20 +41,8 @@ def exBalanced : Array Tok := #[.other false, opOf "parenthesesStart", .other tr
 def exUnclosed : Array Tok := #[.other false, opOf "parenthesesStart"]
 def exMismatch : Array Tok := #[opOf "parenthesesStart", opOf "bracketEnd"]
 
-def tokOk : Tok → Bool
-  | .op o => decide (o ∈ knownOps)
-  | .other _ => true
-
-/-- `Typed` from a decidable check of the (finite) array -/
-theorem typed_of_check (a : Array Tok) (h : a.toList.all tokOk = true) : Typed a := by
-  intro k t hk o ho
-  subst ho
-  have hm : Tok.op o ∈ a.toList := Array.mem_toList_iff.mpr (Array.mem_of_getElem? hk)
-  have := List.all_eq_true.mp h _ hm
-  simpa [tokOk] using this
-
-theorem exBalanced_typed : Typed exBalanced := typed_of_check _ (by decide)
-theorem exUnclosed_typed : Typed exUnclosed := typed_of_check _ (by decide)
+private theorem exBalanced_typed : Typed exBalanced := typed_of_check _ (by decide)
+private theorem exUnclosed_typed : Typed exUnclosed := typed_of_check _ (by decide)
 
 /-! ### (a) setup -/
 
